@@ -8,7 +8,7 @@
 (*   op     delete | null | toString | toNumber | toArray | toObject |      *)
 (*          empty | dropElement | elemNumber | zero | negative | fraction |*)
 (*          idAlpha | idFloat | arrayLong | arrayShort | elemString |      *)
-(*          badString                                                       *)
+(*          badString | crsUriObject | crsWkt | crsRefSys                   *)
 (* The property lists which documents MUST be rejected with an error       *)
 (* (missing CRS or tile matrices, wrong types, non-positive sizes,         *)
 (* non-integer ids; we read a missing required field as "incomplete");     *)
@@ -21,6 +21,9 @@ Sizes == {"tileWidth", "tileHeight", "matrixWidth", "matrixHeight"}
 DocMut ==   \* <<field, op, class>>
   { <<"crs", "delete", "reject">>, <<"crs", "null", "reject">>, <<"crs", "toNumber", "reject">>, <<"crs", "toArray", "reject">>,
     <<"crs", "toString", "nopanic">>, <<"crs", "toObject", "nopanic">>,
+    \* the other forms a CRS may take (unmarshalCRS: {uri}, {wkt: projjson}, {referenceSystem}): accepted documents, must round-trip
+    <<"crs", "crsUriObject", "nopanic">>, <<"crs", "crsWkt", "nopanic">>, <<"crs", "crsRefSys", "nopanic">>,
+    <<"boundingBox.crs", "crsUriObject", "nopanic">>, <<"boundingBox.crs", "crsWkt", "nopanic">>, <<"boundingBox.crs", "crsRefSys", "nopanic">>,
     <<"tileMatrices", "delete", "reject">>, <<"tileMatrices", "null", "reject">>, <<"tileMatrices", "toString", "reject">>,
     <<"tileMatrices", "toNumber", "reject">>, <<"tileMatrices", "toObject", "reject">>, <<"tileMatrices", "empty", "reject">>,
     <<"tileMatrices", "elemNumber", "reject">>, <<"tileMatrices", "dropElement", "nopanic">>,
